@@ -28,8 +28,20 @@ numpy float64 and numpy int64 scalars (the type is part of the case), including 
     0, 5e-324, float_info.min, 1e-300 .. 1e300, max double, inf and tolerances matched to a deviation of the history
     (factors 0.5, 1 -+ 1e-6, 2, 1e+-3), so that squared / cross-multiplied / re-associated spellings of the three
     tests (which overflow, underflow or meet a zero where the documented one does not) decide differently.
+  * histories and stop sources: the evaluator may be cleared (clear_history(), the library's own reset) between two runs of a
+    session (the reference history starts again; generated also so that the first check after the clearing at which the rule
+    holds meets the history length of the last check before it); a session may have a SECOND EarlyStopping on the same
+    evaluator (same or second scripted quantity, either list order) and / or another callback, listed before the stoppers,
+    that asks for the stop at an epoch / batch end.  Then: the run ends at the first epoch at which ANY stopper's rule holds
+    (or the other callback fires), every stopper's last_epoch is the latest epoch at which ITS rule held, and the stop flag,
+    read after every callback of the list, never goes from True back to False inside a run.
+  * call forms: periods of evaluator and stopper and the patience as Python int / numpy.int64 / numpy.int32, tolerance as float /
+    int / numpy.float64; the evaluator an instance of the stock class or of a trivial user subclass (the documented parameter
+    type is "an instance of MetricEvaluator or ObservableEvaluator").  Out of scope (ASSUMPTIONS): attributes of a live stopper
+    re-assigned between runs.
   * correspondence: outcome, epochs run, last_epoch, evaluator record vs the extracted Coq model
-    (Callbacks.es_fit / es_construct) executed at IEEE doubles.
+    (Callbacks.es_fit / es_construct) executed at IEEE doubles (one model session per stretch between two clearings); with
+    several stop sources the model's rule (Callbacks.es_rule) decides every check and the predicted outcome is compared.
   * constructor: the statement only says that the variance criterion is REFUSED for plain metrics and that the
     deprecated class behaves as the variance criterion.  Demanded: variance (any spelling the constructor would
     normalise) + MetricEvaluator raises (any exception class); the three documented names construct for the
@@ -47,13 +59,22 @@ RULE = ("sessions = (evaluator kind metric/observable, callback order evaluator-
         "random case and white space), tolerance in {0, 1e-3, 0.05, 0.3, 2, inf}, scripted value sequence monotone-converging / "
         "oscillating / constant / containing zeros / plateaus / random, value type float / int / numpy.float64 / numpy.int64 (exact zeros "
         "in every type), variances positive or zero, one or two fit runs of up to 24 epochs without clearing); "
-        "plus the constructor table over 14 criterion spellings x 3 evaluator kinds and the deprecated class; "
+        "options: periods as int / numpy.int64 / numpy.int32, tolerance as float / int / numpy.float64, evaluator of a trivial user subclass "
+        "(15%), evaluator.clear_history() before a later run (40% of the later runs; every 12th session built so that the first positive "
+        "check after the clearing meets the history length of the last negative check before it), a second stopper on the same or a second "
+        "quantity and / or a StopAt callback before the stoppers (20%); 27 fixed sessions of these kinds run first; "
+        "plus the constructor table over 14 criterion spellings x 5 evaluator kinds (stock, user subclasses, non-evaluator), the deprecated "
+        "class and numpy / int argument types; "
         "plus EXTREME sessions (28 fixed, run first; 1 in 4 of the random stream): float / numpy.float64 values = shape settle / halving / flip / "
         "zeros / two-scale / ulp-steps / near-equal (1e-12..1e-4) times a magnitude in {5e-324 .. 4e307}, variances in {0, 5e-324, 1e-310 .. max "
         "double} or the squared magnitude, tolerance in {0, 5e-324, float_info.min, 1e-300 .. 1e300, max double, inf} or matched to a deviation of "
         "the history; every decision also taken by an exact rational oracle of the documented inequality; "
         "a session is non-trivial when the rule was evaluated at least once with enough history (stop or not)")
-ASSUMPTIONS = []
+ASSUMPTIONS = ["stoppers are immutable after construction: re-assigning patience / tolerance / period on a live EarlyStopping between runs is "
+               "not generated (the statement quantifies over the configuration GIVEN to the constructor; the attributes are not documented as "
+               "settable) -- red-team survivor C18_5 is out of scope",
+               "user subclasses of MetricEvaluator / ObservableEvaluator are generated only in their trivial form (no method of the base class "
+               "overridden): the documented parameter type is 'an instance of MetricEvaluator or ObservableEvaluator'"]
 
 VTYPES = {"float": float, "int": lambda x: int(round(x)), "np.float64": np.float64, "np.int64": lambda x: np.int64(int(round(x)))}
 PTYPES = {"int": int, "np.int64": np.int64, "float": float}
@@ -167,28 +188,90 @@ def spell(rng, crit):
     return s
 
 
+ITYPES = {"int": int, "np.int64": np.int64, "np.int32": np.int32}       # how a period is handed over
+_SUB = {}
+
+
+def evaluator_classes(sub):
+    """the stock evaluator classes, or trivial user subclasses of them (nothing of the base class is overridden)"""
+    from qucumber.callbacks import MetricEvaluator, ObservableEvaluator
+    if not sub:
+        return MetricEvaluator, ObservableEvaluator
+    if "sub" not in _SUB:
+        class PlottingMetricEvaluator(MetricEvaluator):
+            def summary(self):
+                return {n: self[n] for n in self.names}
+
+        class MyObservableEvaluator(ObservableEvaluator):
+            pass
+        _SUB["sub"] = (PlottingMetricEvaluator, MyObservableEvaluator)
+    return _SUB["sub"]
+
+
+def flag_probe_class():
+    if "F" not in _SUB:
+        from qucumber.callbacks import CallbackBase
+
+        class FlagProbe(CallbackBase):
+            """records the stop flag as it is when this callback's turn comes at the end of an epoch"""
+            def __init__(self, log, pos):
+                self.log, self.pos = log, pos
+
+            def on_epoch_end(self, s, epoch):
+                self.log.append((int(epoch), self.pos, bool(s.stop_training)))
+        _SUB["F"] = FlagProbe
+    return _SUB["F"]
+
+
+def given_tol(tol, ttype):
+    if ttype == "int" and math.isfinite(tol) and tol == int(tol):
+        return int(tol)
+    if ttype == "np.float64":
+        return np.float64(tol)
+    return tol
+
+
 def session(ctx, spec):
-    from qucumber.callbacks import MetricEvaluator, ObservableEvaluator, EarlyStopping, VarianceBasedEarlyStopping
+    """one session = one evaluator, one stopper (optionally a second stopper and / or a StopAt callback: several stop sources),
+    one or more fit runs on the same objects, optionally evaluator.clear_history() between two runs"""
+    from qucumber.callbacks import EarlyStopping, VarianceBasedEarlyStopping
+    import io, contextlib
     C = base.classes()
+    MetricEvaluator, ObservableEvaluator = evaluator_classes(spec.get("subclass"))
     case = {"session": "early_stopping", "spec": spec}
     s, extra = base.make_state(spec)
     pe, ps, p, tol = spec["pe"], spec["ps"], spec["patience"], float(spec["tol"])
     crit = spec["crit"].strip().lower()
     clock = C["Clock"]()
     vals, vars_ = spec["values"], spec["variances"]
+    second = spec.get("second")             # {"name": "q"|"r", "crit", "tol", "patience", "ps", "values", "variances"}
+    stop_at = spec.get("stop_at")           # [fit index, epoch, "epoch"|"batch"]: another stop source, listed before the stoppers
+    clear_before = spec.get("clear_before") or []       # fit indices before which evaluator.clear_history() is called
+    multi = bool(second) or stop_at is not None
+    names = ["q"] + (["r"] if second and second["name"] == "r" else [])
+    scripts = {"q": (vals, vars_)}
+    if "r" in names:
+        scripts["r"] = (second["values"], second["variances"])
     kw = {"num_samples": 4, "num_chains": 4, "burn_in": 1, "steps": 1}
     conv = VTYPES[spec.get("vtype", "np.float64")]
     vconv = float if spec.get("vtype", "np.float64") in ("float", "int") else np.float64
+    pegiven = ITYPES[spec.get("petype", "int")](pe)
+    psgiven = ITYPES[spec.get("pstype", "int")](ps)
+    tgiven = given_tol(tol, spec.get("ttype", "float"))
     if spec["ev"] == "metric":
-        fn = lambda state, **k: conv(vals[clock.t % len(vals)])
-        ev = MetricEvaluator(pe, {"q": fn}, verbose=bool(spec.get("verbose", False)))
-        probe = C["Probe"](lambda st: (fn(st), np.float64(0.0)))
+        fns = {nm: (lambda vs: (lambda state, **k: conv(vs[clock.t % len(vs)])))(scripts[nm][0]) for nm in names}
+        ok, ev = ctx.call("evaluator construction", case, lambda: MetricEvaluator(pegiven, dict(fns), verbose=bool(spec.get("verbose", False))))
+        if not ok:
+            return
+        probe = C["Probe"](lambda st: {nm: (fns[nm](st), np.float64(0.0)) for nm in names})
         read = lambda: [float(x) for x in ev["q"]]
     else:
-        obs = C["StubObs"]("q", clock, [[vals[i % len(vals)], vars_[i % len(vars_)]] for i in range(len(vals) * len(vars_))],
-                           conv=conv, vconv=vconv)
-        ev = ObservableEvaluator(pe, [obs], verbose=bool(spec.get("verbose", False)), **kw)
-        wb = C["obs_wouldbe"]([obs], kw)
+        obs = [C["StubObs"](nm, clock, [[scripts[nm][0][i % len(scripts[nm][0])], scripts[nm][1][i % len(scripts[nm][1])]]
+                                        for i in range(len(scripts[nm][0]) * len(scripts[nm][1]))], conv=conv, vconv=vconv) for nm in names]
+        ok, ev = ctx.call("evaluator construction", case, lambda: ObservableEvaluator(pegiven, obs, verbose=bool(spec.get("verbose", False)), **kw))
+        if not ok:
+            return
+        wb = C["obs_wouldbe"](obs, kw)
         if spec.get("regime") == "extreme":
             # System.statistics merges chunk statistics with (mean difference)**2 and mean*n/n, variance*(n-1)/(n-1): that overflows
             # (OverflowError for Python floats, nan for numpy) or rounds for magnitudes the stopper itself handles.  The property is about
@@ -198,53 +281,81 @@ def session(ctx, spec):
                 return None
             ev.system = ScriptedSystem(ev.system, kw["num_samples"])
             wb = ev.system.statistics
-        probe = C["Probe"](lambda st: (lambda d: (d["q"]["mean"], d["q"]["variance"]))(wb(st)))
+        probe = C["Probe"](lambda st: (lambda d: {nm: (d[nm]["mean"], d[nm]["variance"]) for nm in names})(wb(st)))
         read = lambda: [float(x) for x in ev["q"].means]
     pgiven = PTYPES[spec.get("ptype", "int")](p)
     esform = spec.get("esform", 0)
     if spec.get("deprecated"):
         vn = spec.get("vname")          # None: argument omitted; else [mode, value] (documented: ignored)
         if vn is None:
-            mk = lambda: VarianceBasedEarlyStopping(ps, tol, pgiven, ev, "q")
+            mk = lambda: VarianceBasedEarlyStopping(psgiven, tgiven, pgiven, ev, "q")
         elif vn[0] == "pos":
-            mk = lambda: VarianceBasedEarlyStopping(ps, tol, pgiven, ev, "q", vn[1])
+            mk = lambda: VarianceBasedEarlyStopping(psgiven, tgiven, pgiven, ev, "q", vn[1])
         else:
-            mk = lambda: VarianceBasedEarlyStopping(period=ps, tolerance=tol, patience=pgiven, evaluator_callback=ev,
+            mk = lambda: VarianceBasedEarlyStopping(period=psgiven, tolerance=tgiven, patience=pgiven, evaluator_callback=ev,
                                                     quantity_name="q", variance_name=vn[1])
         ctx.count("variance_name:%s" % ("omitted" if vn is None else "%s=%r" % (vn[0], vn[1])))
         ok, es = ctx.call("VarianceBasedEarlyStopping construction", case, mk)
     elif spec["crit"] in CRITS:
         if esform == 1:
-            mk = lambda: EarlyStopping(ps, tol, pgiven, ev, "q", spec["crit"])
+            mk = lambda: EarlyStopping(psgiven, tgiven, pgiven, ev, "q", spec["crit"])
         elif esform == 2:
-            mk = lambda: EarlyStopping(period=ps, tolerance=tol, patience=pgiven, evaluator_callback=ev, quantity_name="q",
+            mk = lambda: EarlyStopping(period=psgiven, tolerance=tgiven, patience=pgiven, evaluator_callback=ev, quantity_name="q",
                                        criterion=spec["crit"])
         elif esform == 3 and spec["crit"] == "relative":
-            mk = lambda: EarlyStopping(ps, tol, pgiven, ev, "q")          # documented default criterion
+            mk = lambda: EarlyStopping(psgiven, tgiven, pgiven, ev, "q")          # documented default criterion
         else:
-            mk = lambda: EarlyStopping(ps, tol, pgiven, ev, "q", criterion=spec["crit"])
+            mk = lambda: EarlyStopping(psgiven, tgiven, pgiven, ev, "q", criterion=spec["crit"])
         ctx.count("stopper_call_form:%d" % esform)
         ok, es = ctx.call("EarlyStopping construction", case, mk)
     else:       # a spelling with other case / white space: whether it is accepted is not part of the property
-        r = base.res(lambda: EarlyStopping(ps, tol, pgiven, ev, "q", criterion=spec["crit"]))
+        r = base.res(lambda: EarlyStopping(psgiven, tgiven, pgiven, ev, "q", criterion=spec["crit"]))
         base.info(ctx, "criterion written with other case / white space is accepted", r[0] == 0)
         ok, es = r[0] == 0, (r[1] if r[0] == 0 else None)
     if not ok:
         return
+    # stop sources: the stoppers in list order (+ StopAt, placed before them)
+    stoppers = [{"es": es, "name": "q", "crit": crit, "tol": tol, "p": p, "ps": ps, "want": None, "unknown": False, "mwant": None}]
+    if second:
+        ok, es2 = ctx.call("EarlyStopping construction", case,
+                           lambda: EarlyStopping(ITYPES[second.get("pstype", "int")](second["ps"]), float(second["tol"]), second["patience"], ev,
+                                                 second["name"], criterion=second["crit"]))
+        if not ok:
+            return
+        stoppers.append({"es": es2, "name": second["name"], "crit": second["crit"], "tol": float(second["tol"]), "p": second["patience"],
+                         "ps": second["ps"], "want": None, "unknown": False, "mwant": None})
+        if spec.get("swap2"):
+            stoppers.reverse()
     ev_first = spec["order"] == "ev_first"
-    cbs = [clock, probe, ev, es] if ev_first else [clock, es, probe, ev]
-    hist = []                   # reference history of evaluations (value, variance)
-    want_last = None
-    mfits, impl = [], []
+    core = ([probe, ev] + [st["es"] for st in stoppers]) if ev_first else ([st["es"] for st in stoppers] + [probe, ev])
+    flaglog = []
+    F = flag_probe_class()
+    hists = {nm: [] for nm in names}        # reference histories of evaluations (value, variance), one per monitored quantity
+    mfits, impl, segs = [], [], [[]]
+    mpred, mimpl = [], []                   # several stop sources: outcome predicted with the model's rule vs the run
     evaluated = borderline = False
     extreme = spec.get("regime") == "extreme"
-    import io, contextlib
+    model = ctx.get_model()
     for fi, (start, end) in enumerate(spec["fits"]):
-        n0 = len(probe.events)
+        if fi in clear_before:              # the library's own reset: the history starts again (the stopper object lives on)
+            ok, _ = ctx.call("evaluator.clear_history() between two runs", case, ev.clear_history)
+            if not ok:
+                return
+            for nm in names:
+                hists[nm] = []
+            segs.append([])
+            ctx.count("history:clear_history between runs")
+        n0, f0 = len(probe.events), len(flaglog)
+        for st in stoppers:
+            st["mnow"] = None
         s.stop_training = False
         fkw = dict(extra)
         if not (start == 1 and spec.get("omit_default_start")):      # starting_epoch=1 is the default: sometimes not passed at all
             fkw["starting_epoch"] = start
+        lst = [clock] + ([C["StopAt"](stop_at[1], stop_at[2])] if (stop_at is not None and stop_at[0] == fi) else []) + core
+        cbs = []
+        for pos, cb in enumerate(lst):      # the stop flag is read after every callback of the list
+            cbs += [cb, F(flaglog, pos)]
         with contextlib.redirect_stdout(io.StringIO()):
             ok, _ = ctx.call("fit with EarlyStopping", case, lambda: s.fit(base.DATA, epochs=end, pos_batch_size=3, neg_batch_size=3, k=1,
                                                                            lr=0.1, callbacks=cbs, **fkw))
@@ -259,77 +370,165 @@ def session(ctx, spec):
         s.stop_training = False
         evs = probe.events[n0:]
         ran = [e["epoch"] for e in evs]
+        # ---- the stop flag inside the run: once set it stays set (a stopper whose rule does not hold must not cancel a stop requested
+        #      earlier in the same epoch by another stopper / another callback)
+        dropped = [(a, b) for a, b in zip(flaglog[f0:], flaglog[f0 + 1:]) if a[0] == b[0] and a[2] and not b[2]]
+        ctx.require("the stop flag never goes from True back to False inside a run (a stop requested earlier in the epoch is not cancelled)",
+                    not dropped, case, {"first (epoch, position in the callback list, flag) pair": dropped[:1],
+                                        "callbacks": [type(cb).__name__ for cb in lst]})
         # ---- reference decision procedure on the probe's record
         ctx.require("epochs run are consecutive from starting_epoch", ran == list(range(start, start + len(ran))) and len(ran) >= 1, case, ran)
+        mfire = None
         for i, e in enumerate(evs):
-            v = (float(e["values"][0]), float(e["values"][1]))
-            if ev_first and e["epoch"] % pe == 0:
-                hist.append(v)
-            checked = e["epoch"] % ps == 0
-            rule, border = ref_should_stop(hist, p, tol, crit) if checked else (False, None)
-            if checked and len(hist) >= p + 1:
-                evaluated = True
-                if extreme:
-                    ctx.count("extreme_decision:%s:%s" % (crit, border or ("below-tolerance" if rule else "not-below")))
-            if not ev_first and e["epoch"] % pe == 0:
-                hist.append(v)
+            ep = e["epoch"]
+            v = {nm: (float(e["values"][nm][0]), float(e["values"][nm][1])) for nm in names}
+            if ev_first and ep % pe == 0:
+                for nm in names:
+                    hists[nm].append(v[nm])
+            decided = []
+            for st in stoppers:
+                hist = hists[st["name"]]
+                checked = ep % st["ps"] == 0
+                rule, soft = ref_should_stop(hist, st["p"], st["tol"], st["crit"]) if checked else (False, None)
+                if checked and len(hist) >= st["p"] + 1:
+                    evaluated = True
+                    if extreme:
+                        ctx.count("extreme_decision:%s:%s" % (st["crit"], soft or ("below-tolerance" if rule else "not-below")))
+                if multi and checked and mfire is None:
+                    if bool(model.call("c18_rule", CRITS.index(st["crit"]), st["p"], st["tol"], [list(h) for h in hist])):
+                        st["mnow"] = ep
+                decided.append((st, rule, soft))
+            if multi and mfire is None:
+                at = stop_at is not None and stop_at[0] == fi and stop_at[1] == ep
+                if at or any(st.get("mnow") == ep for st in stoppers):
+                    mfire = ep
+                    for st in stoppers:
+                        if st.get("mnow") == ep:
+                            st["mwant"] = ep
+            if not ev_first and ep % pe == 0:
+                for nm in names:
+                    hists[nm].append(v[nm])
             last = (i == len(evs) - 1)
-            det = {"epoch": e["epoch"], "history": [list(h) for h in hist[-(p + 2):]], "patience": p, "tol": tol, "criterion": crit,
-                   "stopped_at": ran[-1] if stopped else None, "ran": ran}
-            if border:          # guard band / exact-vs-IEEE: either decision is accepted here; the rest of the run follows the implementation's choice
-                borderline = True
-                ctx.count("%s_decisions" % border)
-                if last and stopped:
-                    want_last = e["epoch"]
-            elif not last:
-                ctx.require("training continues past an epoch only if the documented rule does not hold there (no missed stop)",
-                            not rule, case, det)
-            else:
-                if rule:
-                    want_last = e["epoch"]
-                    ctx.require("training stops at the first checked epoch at which the documented rule holds", stopped, case, det)
+            other = stop_at is not None and stop_at[0] == fi and stop_at[1] == ep        # another callback asks for the stop at this epoch
+            firing = [st for st, rule, soft in decided if rule and not soft]
+            softs = [st for st, rule, soft in decided if soft]
+            det = {"epoch": ep, "stoppers": [{"quantity": st["name"], "criterion": st["crit"], "tol": st["tol"], "patience": st["p"],
+                                              "period": st["ps"], "history": [list(h) for h in hists[st["name"]][-(st["p"] + 2):]],
+                                              "rule holds": bool(rule), "not demanded": soft} for st, rule, soft in decided],
+                   "patience": p, "tol": tol, "criterion": crit, "stopped_at": ran[-1] if stopped else None, "ran": ran}
+            for st, rule, soft in decided:
+                if soft:        # guard band / exact-vs-IEEE: either decision is accepted here; the rest of the run follows the implementation's choice
+                    borderline = True
+                    ctx.count("%s_decisions" % soft)
+            if firing:
+                if not last:
+                    ctx.require("training continues past an epoch only if the documented rule does not hold there (no missed stop)",
+                                False, case, det)
                 else:
-                    ctx.require("training does not stop at an epoch at which the documented rule does not hold "
-                                "(not before p earlier evaluations, not at unchecked epochs, not above tolerance)",
-                                (not stopped) and e["epoch"] == end, case, det)
-        ctx.require("last_epoch == the epoch of the stop (None while never stopped)", es.last_epoch == want_last, case,
-                    {"last_epoch": es.last_epoch, "want": want_last})
-        mfits.append([[e["epoch"], float(e["values"][0]), float(e["values"][1])] for e in evs])
+                    ctx.require("training stops at the first checked epoch at which the documented rule holds", stopped, case, det)
+                    for st in firing:
+                        st["want"] = ep
+                    for st in softs:
+                        st["unknown"] = True
+            elif softs:
+                if last and stopped:
+                    if len(softs) == 1 and not other:
+                        softs[0]["want"] = ep
+                    else:
+                        for st in softs:
+                            st["unknown"] = True
+            elif last and not other:
+                ctx.require("training does not stop at an epoch at which the documented rule does not hold "
+                            "(not before p earlier evaluations, not at unchecked epochs, not above tolerance)",
+                            (not stopped) and ep == end, case, det)
+        for st in stoppers:
+            if not st["unknown"]:
+                ctx.require("last_epoch == the epoch of the stop (None while never stopped)", st["es"].last_epoch == st["want"], case,
+                            {"quantity": st["name"], "last_epoch": st["es"].last_epoch, "want": st["want"]})
+        rec = [[e["epoch"], float(e["values"]["q"][0]), float(e["values"]["q"][1])] for e in evs]
+        mfits.append(rec)
+        segs[-1].append(rec)
         impl.append([[1, ran[-1]] if stopped else [0], ran, [] if es.last_epoch is None else [int(es.last_epoch)],
                      [int(x) for x in ev.epochs], [0, read()]])
+        if multi:
+            mpred.append([mfire, [st["mwant"] for st in stoppers]])
+            mimpl.append([ran[-1] if stopped else None, [None if st["es"].last_epoch is None else int(st["es"].last_epoch) for st in stoppers]])
         ctx.traces += 1
     # ---- correspondence with the model
-    mod = ctx.get_model().call("c18_es_session", 0 if spec["ev"] == "metric" else 1, ev_first, pe, ps, tol, p,
-                               base.codes("variance" if spec.get("deprecated") else spec["crit"]), mfits)
-    if borderline:
-        base.info(ctx, "session with a guard-band / exact-vs-IEEE decision vs model", base.canon([0, CRITS.index(crit), impl]) == base.canon(mod))
+    mcrit = base.codes("variance" if spec.get("deprecated") else spec["crit"])
+    if multi:
+        # several stop sources: the model's rule (Callbacks.es_rule at IEEE doubles) decides every check of every stopper; the run must end at
+        # the first epoch at which a source fires and every stopper's last_epoch is the latest epoch at which its own rule held
+        got, want = base.canon(mimpl), base.canon(mpred)
     else:
-        ctx.agree_exact("EarlyStopping run vs model", base.canon([0, CRITS.index(crit), impl]), base.canon(mod), case)
+        # the evaluator is new after clear_history(): one model session per stretch of runs between two clearings; the stopper's
+        # last_epoch (the only thing it keeps) is carried over
+        out, carry, code = [], [], None
+        for seg in segs:
+            if not seg:
+                continue
+            m = model.call("c18_es_session", 0 if spec["ev"] == "metric" else 1, ev_first, pe, ps, tol, p, mcrit, seg)
+            code = m[:2]
+            for r in (m[2] if len(m) > 2 else []):
+                r = list(r)
+                if len(r) > 2:
+                    if len(r[2]) == 0:
+                        r[2] = carry
+                    else:
+                        carry = r[2]
+                out.append(r)
+        got, want = base.canon([0, CRITS.index(crit), impl]), base.canon((code or [0, CRITS.index(crit)]) + [out])
+    if borderline:
+        base.info(ctx, "session with a guard-band / exact-vs-IEEE decision vs model", got == want)
+    else:
+        ctx.agree_exact("EarlyStopping run vs model", got, want, case)
     ctx.case({k: spec.get(k) for k in ("ev", "order", "pe", "ps", "patience", "ptype", "vtype", "tol", "crit", "fits", "tseed", "pattern",
-                                       "esform", "vname", "deprecated", "verbose", "regime", "mag", "vmag")},
+                                       "esform", "vname", "deprecated", "verbose", "regime", "mag", "vmag", "petype", "pstype", "ttype",
+                                       "subclass", "clear_before", "stop_at", "swap2")},
              nontrivial=evaluated)
     if extreme:
         ctx.count("regime:extreme")
         ctx.count("extreme_tolerance:" + tol_bucket(tol))
+    if second:
+        ctx.count("stop_sources:two stoppers (%s)" % ("one quantity" if second["name"] == "q" else "two quantities"))
+    if stop_at is not None:
+        ctx.count("stop_sources:another callback stops at %s end, listed before the stopper" % stop_at[2])
+    if spec.get("subclass"):
+        ctx.count("evaluator:user subclass")
+    ctx.count("period_types:evaluator=%s stopper=%s" % (spec.get("petype", "int"), spec.get("pstype", "int")))
+    ctx.count("tolerance_type:" + type(tgiven).__name__)
     ctx.count("vtype:" + spec.get("vtype", "np.float64")); ctx.count("ptype:" + spec.get("ptype", "int"))
+    hist = hists["q"]
     zero_prev = any(h[0] == 0.0 for h in hist) if crit == "relative" else (any(h[1] == 0.0 for h in hist) if crit == "variance" else False)
     if zero_prev:
         ctx.count("zero_in_history:%s:%s" % (crit, spec.get("vtype", "np.float64")))
     ctx.count("crit:" + crit); ctx.count("order:" + spec["order"]); ctx.count("ev:" + spec["ev"]); ctx.count("patience=%d" % p)
-    ctx.count("pattern:" + spec["pattern"]); ctx.count("outcome:" + ("stopped" if want_last is not None else "completed"))
+    ctx.count("pattern:" + spec["pattern"])
+    ctx.count("outcome:" + ("stopped" if any(st["es"].last_epoch is not None for st in stoppers) else "completed"))
     return impl
+
+
+def ki_sub(mk, M, O):
+    return type(mk()) not in (M, O) and isinstance(mk(), (M, O))
 
 
 def constructor_table(ctx):
     from qucumber.callbacks import MetricEvaluator, ObservableEvaluator, EarlyStopping, VarianceBasedEarlyStopping, Logger
     from qucumber.observables import SigmaZ
-    kinds = [("metric", lambda: MetricEvaluator(1, {"q": lambda s, **k: 1.0})),
-             ("observable", lambda: ObservableEvaluator(1, [SigmaZ()], num_samples=2)),
-             ("other", lambda: Logger(1))]
+    SubM, SubO = evaluator_classes(True)
+    # user subclasses of the two evaluator classes are instances of them: same table rows as the stock classes
+    kinds = [("metric", lambda: MetricEvaluator(1, {"q": lambda s, **k: 1.0}), 0),
+             ("observable", lambda: ObservableEvaluator(1, [SigmaZ()], num_samples=2), 1),
+             ("other", lambda: Logger(1), 2),
+             ("metric", lambda: SubM(1, {"q": lambda s, **k: 1.0}), 0),
+             ("observable", lambda: SubO(1, [SigmaZ()], num_samples=2), 1)]
     m = ctx.get_model()
-    for ki, (kname, mk) in enumerate(kinds):
+    for kname, mk, ki in kinds:
+        sub = ki_sub(mk, MetricEvaluator, ObservableEvaluator)
         for sp in SPELL:
             case = {"session": "constructor", "kind": kname, "criterion": sp}
+            if sub:
+                case["subclass"] = True
             r = base.res(lambda: EarlyStopping(1, 0.1, 2, mk(), "q", criterion=sp), lambda es: 0)
             raises = r[0] == 1
             mod_raises = m.call("c18_construct", ki, base.codes(sp))[0] == 1
@@ -346,9 +545,11 @@ def constructor_table(ctx):
                     want_cls = 3 if (kname == "other" or (kname == "metric" and n == "variance")) else 4
                     base.info(ctx, "constructor exception class", r[1] == want_cls)
             ctx.case(case, nontrivial=(kname != "other"))
-            ctx.count("constructor:" + kname)
+            ctx.count("constructor:" + kname + (" (user subclass)" if sub else ""))
         for vn in VNAMES:
             case = {"session": "constructor", "kind": kname, "deprecated": True, "variance_name": vn}
+            if sub:
+                case["subclass"] = True
             if vn is None:
                 r = base.res(lambda: VarianceBasedEarlyStopping(1, 0.1, 2, mk(), "q"), lambda es: 0)
             elif vn[0] == "pos":
@@ -366,6 +567,19 @@ def constructor_table(ctx):
             else:
                 base.info(ctx, "constructor raises-or-constructs outside the statement (other)", raises == mod_raises)
             ctx.case(case, nontrivial=True)
+    # period / patience handed over as numpy integers, tolerance as int / numpy float: construction succeeds like with Python numbers
+    for kname, mk, ki in kinds:
+        if kname == "other" or ki_sub(mk, MetricEvaluator, ObservableEvaluator):
+            continue
+        for args in ((np.int64(1), 0.1, 2), (np.int32(2), 1, np.int64(1)), (np.arange(3)[1], np.float64(0.5), 2.0), (3, 0, np.int32(5))):
+            for crit in (CRITS if kname == "observable" else CRITS[:2]):
+                case = {"session": "constructor", "kind": kname, "criterion": crit,
+                        "arguments": [type(a).__name__ for a in args]}
+                r = base.res(lambda: EarlyStopping(args[0], args[1], args[2], mk(), "q", criterion=crit), lambda es: 0)
+                ctx.require("period / patience given as numpy integers and tolerance as int / numpy float are accepted like Python numbers",
+                            r[0] == 0, case, {"got": r})
+                ctx.case(case, nontrivial=True)
+                ctx.count("constructor:numpy arguments")
 
 
 def pattern(rng, name, n=30):
@@ -394,6 +608,56 @@ def pattern(rng, name, n=30):
 
 
 PATTERNS = ["converging", "oscillating", "constant", "zeros", "plateaus", "random"]
+
+
+def second_stopper(rng, d, name=None):
+    """a second EarlyStopping on the same evaluator: on the same quantity or on a second scripted quantity"""
+    crits = CRITS if d["ev"] == "observable" else CRITS[:2]
+    vals = pattern(rng, PATTERNS[int(rng.integers(len(PATTERNS)))])
+    if d.get("vtype") in ("int", "np.int64"):
+        vals = [float(round(4 * v)) for v in vals]
+    return {"name": name or ("r" if rng.random() < 0.6 else "q"), "crit": crits[int(rng.integers(len(crits)))],
+            "tol": TOLS[int(rng.integers(len(TOLS)))], "patience": 1 + int(rng.integers(3)), "ps": int(rng.integers(1, 4)),
+            "pstype": ["int", "np.int64"][int(rng.integers(2))], "values": vals,
+            "variances": [float(v) for v in np.round(rng.uniform(0.05, 3, size=5), 2)]}
+
+
+def options(rng, d, i):
+    """call forms / histories / stop sources of a session beyond the plain one: periods as numpy integers, tolerance as int or
+    numpy float, user subclasses of the evaluators, evaluator.clear_history() between runs, a second stopper, a StopAt callback"""
+    d["pstype"] = ["int", "int", "np.int64", "np.int32"][int(rng.integers(4))]
+    d["petype"] = ["int", "int", "np.int64", "np.int32"][int(rng.integers(4))]
+    d["ttype"] = ["float", "float", "int", "np.float64"][int(rng.integers(4))]
+    if rng.random() < 0.15:
+        d["subclass"] = True
+    fits = d["fits"]
+    if len(fits) > 1:
+        cb = [j for j in range(1, len(fits)) if rng.random() < 0.4]
+        if cb:
+            d["clear_before"] = cb
+    if i % 12 == 5:         # the first positive check after a clearing meets the history length of the last (negative) check before it
+        pe, k, m = int(rng.integers(1, 3)), int(rng.integers(3, 5)), int(rng.integers(1, 3))
+        ps, n1 = pe * k, pe * k * m
+        moving = [float(v) for v in np.round(np.cumsum(rng.uniform(0.5, 2, size=n1 + (m - 1) * ps)) * float(rng.choice([-1, 1])), 2)]
+        c = float(np.round(rng.normal(), 2)) or 1.0
+        if d.get("vtype") in ("int", "np.int64"):
+            moving, c = [float(round(4 * v)) for v in moving], float(round(4 * c)) or 1.0
+        crit = d["crit"].strip().lower()
+        d.update({"pe": pe, "ps": ps, "patience": 1 + int(rng.integers(k - 2)), "crit": crit, "values": moving + [c] * (ps + 8),
+                  "fits": [(1, n1), (1, n1 + int(rng.integers(0, 5)))], "clear_before": [1], "pattern": "clear-same-length",
+                  "tol": 1e-3 if crit == "relative" else [1e-3, 0.05][int(rng.integers(2))],
+                  "variances": [v or 1.0 for v in d["variances"]]})
+        return
+    r = rng.random()
+    if r < 0.2:
+        if r < 0.14:
+            d["second"] = second_stopper(rng, d)
+            d["swap2"] = bool(rng.random() < 0.5)
+        if r > 0.08:
+            fi = int(rng.integers(len(fits)))
+            a, b = fits[fi]
+            d["stop_at"] = [fi, int(rng.integers(a, b + 1)), "epoch" if rng.random() < 0.6 else "batch"]
+
 
 # ---------------------------------------------------------------------------------------------------------------------
 # EXTREME regime: the whole finite double range.  Algebraically equal spellings of the three tests (squared:
@@ -501,6 +765,63 @@ def extreme_spec(rng, i):
             "tseed": int(rng.integers(1 << 30))}
 
 
+HISTORY_PATTERNS = ("clear-same-length", "two-stoppers", "stop-at+stopper", "evaluator-subclass", "numpy-arguments")
+
+
+def history_fixed():
+    """fixed sessions (run first) for: evaluator.clear_history() between runs, several stop sources in one run, user subclasses of the
+    evaluators, periods / patience as numpy integers and tolerance as int / numpy float"""
+    out = []
+
+    def b(**kw):
+        d = {"ev": "metric", "order": "ev_first", "pe": 1, "ps": 1, "patience": 1, "crit": "absolute", "tol": 0.05, "vtype": "float",
+             "values": [1.0], "variances": [1.0], "fits": [(1, 8)], "pattern": "fixed-history", "state": "positive", "tseed": 40 + len(out)}
+        d.update(kw)
+        d["values"] = [float(v) for v in d["values"]]
+        out.append(d)
+
+    # the evaluator is cleared between two runs; the first check of run 2 at which the rule holds meets the history length of the last
+    # (negative) check of run 1
+    b(ps=4, values=[5, 4, 3, 2, 9, 7, 5, 5, 5, 5, 5, 5, 5, 5], fits=[(1, 4), (1, 8)], clear_before=[1], pattern="clear-same-length")
+    b(ps=4, values=[5, 4, 3, 2, 9, 5, 5, 5, 5, 5, 5, 5, 5, 5], fits=[(1, 4), (1, 8)], clear_before=[1], order="st_first",
+      pattern="clear-same-length")
+    b(ev="observable", crit="variance", tol=0.3, pe=2, ps=4, vtype="np.float64", values=[5, 5, 4, 4] + [7] * 10, fits=[(1, 4), (1, 8)],
+      clear_before=[1], pattern="clear-same-length")
+    b(crit="relative", tol=1e-3, ps=3, patience=2, vtype="int", values=[9, 8, 7] + [2] * 14,
+      fits=[(1, 3), (4, 6), (1, 9)], clear_before=[1], pattern="clear-same-length")
+    # two stoppers in one run: the one whose rule holds is listed before / after the one whose rule does not
+    a_, b_ = [3, 1, 1, 7, 2, 9, 4, 8], [1, 2, 4, 8, 16, 32, 64, 128]
+    sec = lambda vals, **kw: dict({"name": "r", "crit": "absolute", "tol": 0.05, "patience": 1, "ps": 1, "values": [float(v) for v in vals],
+                                   "variances": [1.0]}, **kw)
+    for order in ("ev_first", "st_first"):
+        b(order=order, values=a_, second=sec(b_), swap2=False, pattern="two-stoppers")
+        b(order=order, values=b_, second=sec(a_), swap2=True, pattern="two-stoppers")
+        b(order=order, values=a_, second=sec(b_), swap2=True, pattern="two-stoppers")
+    b(values=a_, second=sec(a_, name="q", crit="relative", tol=1e-3, patience=2), pattern="two-stoppers")
+    b(ev="observable", crit="variance", tol=0.3, vtype="np.float64", values=a_, variances=[4.0],
+      second=sec(b_, crit="relative", tol=1e-3, ps=1, pstype="np.int64"), pattern="two-stoppers")
+    # another callback (listed before the stopper) asks for the stop; the stopper's rule does not hold there
+    b(values=b_, stop_at=[0, 3, "epoch"], pattern="stop-at+stopper")
+    b(values=b_, stop_at=[0, 4, "batch"], order="st_first", pattern="stop-at+stopper")
+    b(values=b_, stop_at=[0, 3, "epoch"], second=sec(b_, crit="relative", tol=1e-3), pattern="stop-at+stopper")
+    b(values=b_, stop_at=[0, 2, "epoch"], patience=3, pattern="stop-at+stopper")            # ... the stopper has not enough history there
+    b(values=b_, stop_at=[0, 3, "batch"], ps=2, pattern="stop-at+stopper")                  # ... the stopper does not check that epoch
+    b(values=a_, second=sec(b_, patience=5, ps=2), swap2=False, pattern="two-stoppers")     # the second stopper has not enough history
+    # user subclasses of the evaluator classes
+    b(values=[3, 1, 1, 7, 2, 9], subclass=True, pattern="evaluator-subclass")
+    b(ev="observable", crit="variance", tol=0.3, vtype="np.float64", values=[3, 1, 1, 7, 2, 9], subclass=True, pattern="evaluator-subclass")
+    b(ev="observable", crit="relative", tol=0.3, order="st_first", values=[3, 1, 1, 7, 2, 9], subclass=True, esform=3,
+      pattern="evaluator-subclass")
+    # periods / patience as numpy integers, tolerance as int / numpy float
+    b(values=[9, 5, 5, 7, 2, 9], tol=0.5, pstype="np.int64", pattern="numpy-arguments")
+    b(values=[9, 5, 5, 7, 2, 9], tol=1.0, pstype="np.int32", ttype="int", pattern="numpy-arguments")
+    b(values=[9, 9, 5, 5, 5, 5, 7, 7], tol=2.0, pe=2, ps=2, petype="np.int64", pstype="np.int64", ptype="np.int64", ttype="np.float64",
+      pattern="numpy-arguments")
+    b(ev="observable", crit="variance", vtype="np.float64", values=[9, 5, 5, 7, 2, 9], tol=1.0, ps=1, pe=1, petype="np.int32",
+      pstype="np.int64", ttype="int", deprecated=True, vname=None, pattern="numpy-arguments")
+    return out
+
+
 def extreme_fixed():
     """sessions on which a squared / cross-multiplied / re-associated spelling of a documented test decides differently
     (under- or overflow of an intermediate, never of the documented quantity); they run first"""
@@ -588,13 +909,15 @@ def specs(ctx):
             for j in range(len(values)):
                 if rng.random() < 0.3:
                     values[j] = 0.0
-        out.append({"ev": evk, "order": "ev_first" if rng.random() < 0.6 else "st_first", "pe": pe, "ps": ps, "patience": p,
+        d = ({"ev": evk, "order": "ev_first" if rng.random() < 0.6 else "st_first", "pe": pe, "ps": ps, "patience": p,
                     "ptype": ["int", "int", "np.int64", "float"][int(rng.integers(4))], "vtype": vtype,
                     "crit": spell(rng, crit) if rng.random() < 0.15 else crit, "tol": TOLS[int(rng.integers(len(TOLS)))], "values": values,
                     "variances": variances, "fits": fits, "pattern": pat, "esform": int(rng.integers(4)),
                     "omit_default_start": bool(rng.random() < 0.5), "verbose": bool(rng.random() < 0.15),
                     "state": ["positive", "positive", "complex", "dm"][int(rng.integers(4))] if ctx.thorough or i % 7 == 0 else "positive",
                     "tseed": int(rng.integers(1 << 30))})
+        options(rng, d, i)
+        out.append(d)
     # the input of the repaired defect: patience 1, values 5,3,1,1,...; absolute; tol 0.05
     fixed = [{"ev": "metric", "order": "ev_first", "pe": 1, "ps": 1, "patience": 1, "crit": "absolute", "tol": 0.05, "vtype": "float",
               "values": [5.0, 3.0, 1.0, 1.0, 1.0, 1.0], "variances": [1.0], "fits": [(1, 6)], "pattern": "defect-input-lookback",
@@ -629,10 +952,13 @@ def specs(ctx):
         mixed.append(sp_)
         if i % 3 == 2 and i // 3 < nx:
             mixed.append(xs[i // 3])
-    return extreme_fixed() + fixed + mixed
+    head = extreme_fixed() + history_fixed() + fixed
+    N_FIXED[0] = len(head)          # the fixed sessions are never cut by the time budget
+    return head + mixed
 
 
 MIN_SESSIONS = 60
+N_FIXED = [0]
 
 
 def run(ctx):
@@ -649,7 +975,7 @@ def run(ctx):
     # ... and the deprecated class in the EXTREME regime (tiny tolerances, huge / tiny values): the first variance sessions of the fixed list
     xpairs = [s_ for s_ in sp if s_.get("regime") == "extreme" and s_["crit"] == "variance"][:14 if ctx.thorough else 6:2]
     kmax = (60 if ctx.thorough else 14) + len(pair_first) * 0 + len(xpairs)
-    for spec in pair_first + xpairs + [s_ for s_ in sp if s_.get("regime") != "extreme"]:
+    for spec in pair_first + xpairs + [s_ for s_ in sp if s_.get("regime") != "extreme" and s_.get("pattern") not in HISTORY_PATTERNS]:
         if spec["ev"] == "observable" and spec["pattern"] != "defect-input-zero" and k < kmax:
             vn = VNAMES[(k + 1) % len(VNAMES)]         # k = 0: keyword "std_error", k = 1: positional "anything", ...
             k += 1
@@ -662,7 +988,7 @@ def run(ctx):
     ctx.count("deprecated_pairs_executed", k)
     done = skipped = 0
     for spec in sp:
-        if time.time() - t0 > budget and done >= MIN_SESSIONS:
+        if time.time() - t0 > budget and done >= max(MIN_SESSIONS, N_FIXED[0]):
             skipped += 1
             continue
         session(ctx, json.loads(json.dumps(spec)))
